@@ -280,7 +280,7 @@ func (x *rsRun) guarded(what string, f func() error) string {
 			return "failed op=" + what + " err=" + errTok(err)
 		}
 		return ""
-	case <-time.After(5 * time.Second):
+	case <-time.After(patience(5 * time.Second)):
 		x.note("blocked op=" + what)
 		return "blocked op=" + what
 	}
@@ -371,7 +371,7 @@ func (x *rsRun) step(ws []string) string {
 			if ids := md.Get("session-id"); len(ids) > 0 {
 				s.session = ids[0]
 			}
-		case <-time.After(5 * time.Second):
+		case <-time.After(patience(5 * time.Second)):
 			x.bad = append(x.bad, "blocked op=stream-register")
 			return "blocked op=stream-register"
 		}
@@ -395,7 +395,7 @@ func (x *rsRun) step(ws []string) string {
 							} else {
 								atomic.AddInt64(&s.acksRef, 1)
 							}
-						case <-time.After(5 * time.Second):
+						case <-time.After(patience(5 * time.Second)):
 							atomic.AddInt64(&s.acksRef, 1)
 						}
 					}
@@ -467,7 +467,7 @@ func (x *rsRun) step(ws []string) string {
 		case r := <-x.bg:
 			x.bg = nil
 			return r
-		case <-time.After(90 * time.Second):
+		case <-time.After(patience(90 * time.Second)):
 			x.bad = append(x.bad, "blocked op=bgload")
 			return "blocked op=bgload"
 		}
@@ -558,7 +558,7 @@ func (x *rsRun) step(ws []string) string {
 			return "bad-op"
 		}
 		ms, _ := strconv.Atoi(ws[2])
-		deadline := time.Now().Add(time.Duration(ms) * time.Millisecond)
+		deadline := time.Now().Add(patience(time.Duration(ms) * time.Millisecond))
 		for {
 			gone := false
 			if r := x.guarded("topology", func() error { gone = !x.listed(s); return nil }); r != "" {
@@ -579,7 +579,7 @@ func (x *rsRun) step(ws []string) string {
 			return "bad-op"
 		}
 		ms, _ := strconv.Atoi(ws[2])
-		deadline := time.Now().Add(time.Duration(ms) * time.Millisecond)
+		deadline := time.Now().Add(patience(time.Duration(ms) * time.Millisecond))
 		for {
 			last := x.e.GetWAL().GetNextSequence() - 1
 			s.mu.Lock()
@@ -623,7 +623,7 @@ func (x *rsRun) closeAll() {
 		go func() { defer func() { recover() }(); x.p.Close(); close(done) }()
 		select {
 		case <-done:
-		case <-time.After(3 * time.Second):
+		case <-time.After(patience(3 * time.Second)):
 		}
 	}
 	if x.e != nil {
@@ -631,7 +631,7 @@ func (x *rsRun) closeAll() {
 		go func() { defer func() { recover() }(); x.e.Close(); close(done) }()
 		select {
 		case <-done:
-		case <-time.After(3 * time.Second):
+		case <-time.After(patience(3 * time.Second)):
 		}
 	}
 }
